@@ -594,6 +594,53 @@ func c06Config(r *mon.Run, cfg c06cfg, jr *rand.Rand, idx int) {
 		m.Signature.KeyshareP = bi(1)
 		deliver("fault-sigmsg", "signature.KeyshareP :=1 (neutral factor from the issuer)", m, h.run.Attrs, false)
 	}
+	// a malicious issuer that re-signs with an exponent e* of its own choice (outside the prescribed interval, or composite) and
+	// proves correctness of that signature honestly: the equation and the proof hold, only the holder's checks on e stand in the way
+	{
+		start, width := pow2(pk.Params.Le-1), pow2(pk.Params.LePrime-1)
+		Q := new(big.Int).Exp(base.Signature.A, base.Signature.E, pk.N)
+		primeFrom := func(x *big.Int, step int64) *big.Int {
+			p := cp(x)
+			if p.Bit(0) == 0 {
+				p.Add(p, bigOne)
+			}
+			for !p.ProbablyPrime(30) {
+				p.Add(p, bi(2*step))
+			}
+			return p
+		}
+		inside := primeFrom(add(start, randBig(jr, int(pk.Params.LePrime)-2)), 1)
+		cands := []struct {
+			name string
+			e    *big.Int
+		}{
+			{"prime just above the interval", primeFrom(add(add(start, width), bi(2)), 1)},
+			{"prime of l_e bits far above the interval", primeFrom(sub(pow2(pk.Params.Le), pow2(pk.Params.Le-3)), 1)},
+			{"prime just below the interval", primeFrom(sub(start, bi(2)), -1)},
+			{"composite inside the interval", add(start, mul(bi(3), bi(5)))},
+			{"product of two primes inside the interval", nil},
+		}
+		_ = inside
+		for _, cnd := range cands {
+			e2 := cnd.e
+			if e2 == nil {
+				a := primeFrom(pow2(pk.Params.Le/2), 1)
+				e2 = mul(a, primeFrom(new(big.Int).Div(add(start, bi(1000)), a), 1))
+			}
+			d := new(big.Int).ModInverse(e2, ord)
+			if d == nil {
+				continue
+			}
+			m := cloneISM(base)
+			m.Signature.A = new(big.Int).Exp(Q, d, pk.N)
+			m.Signature.E = e2
+			eCommit := add(randBig(jr, ord.BitLen()-2), bigOne)
+			aCommit := new(big.Int).Exp(Q, eCommit, pk.N)
+			c := refimpl.HashCommit([]*big.Int{h.run.Context, Q, m.Signature.A, h.run.Nonce2, aCommit}, false)
+			m.Proof = &gabi.ProofS{C: c, EResponse: new(big.Int).Mod(sub(eCommit, mul(c, d)), ord)}
+			deliver("fault-sigmsg", "issuer re-signs with its own exponent: "+cnd.name, m, h.run.Attrs, false)
+		}
+	}
 
 	// ---- faults in the holder's commitment message (issuer must reject) ----
 	pu, err := h.commit.Proofs.GetFirstProofU()
